@@ -164,6 +164,18 @@ def body_gff3(ch, ctx):
         g.attributes["edited"] = ["1"]
         h = db[key]
         ctx.check(str(h) == text and h is not g, "lookup-reflects-edits-of-an-earlier-result", sig, key=key, line=text, got=str(h))
+    # look-up by a Feature object that comes from ANOTHER database of the same annotation (other line order)
+    path_rev = dbutil.write_text(wd, "rev.gff", "\n".join(reversed(texts)) + "\n")
+    try:
+        other = gffutils.create_db(path_rev, ":memory:", id_spec=spec, verbose=False)
+    except Exception:
+        other = None
+    if other is not None and sname not in ("None", "dict_str", "dict_list", "call_none", "call_auto", "list_call", "str", "list", "list_rev", "list_col") or \
+            (other is not None and all(k in ("id", "both") for k in kinds)):
+        for f in other.all_features():
+            if f.id in set(exp):
+                g = db[f]
+                ctx.check(g.id == f.id, "lookup-by-foreign-feature-returns-other-key", sig, wanted=f.id, got=g.id)
     idset = set(exp)
     for key in exp:
         for miss in (key + "_1", key.swapcase(), key[:-1], key + " ", "nope"):
@@ -185,7 +197,8 @@ def _gtf_callable(f):
     return None
 
 
-GTF_SPECS = [("default", None), ("callable", _gtf_callable), ("dict_without_gene", {"exon": "exon_id"}), ("force_gff", None)]
+GTF_SPECS = [("default", None), ("callable", _gtf_callable), ("dict_without_gene", {"exon": "exon_id"}), ("force_gff", None),
+             ("default+custom_keys", None)]          # gtf_gene_key / gtf_transcript_key changed, id_spec left at its documented default
 
 
 def body_gtf(ch, ctx):
@@ -209,6 +222,8 @@ def body_gtf(ch, ctx):
             exp.append("x%d" % i if ft == "exon" else auto(ft))
         else:
             exp.append({"gene": "g%d" % i, "transcript": "t%d" % i}.get(ft) or auto(ft))
+    if sname == "default+custom_keys":
+        texts = [t.replace('exon_id "x', 'gname "y%d"; tname "x' % i) for i, t in enumerate(texts)]
     # derived features (only exons give rise to them) take their key from the same id_spec
     derived = []
     if sname != "force_gff":
@@ -219,6 +234,8 @@ def body_gtf(ch, ctx):
                     continue
                 if sname == "callable":
                     derived.append(("T:" if kind == "transcript" else "G:") + raw)
+                elif sname == "default+custom_keys":
+                    derived.append(None)             # derived features carry only the custom keys: auto-numbered under the default spec
                 elif sname == "dict_without_gene":
                     derived.append(None)             # auto-numbered; order of derivation is not demanded
                 else:
@@ -230,6 +247,8 @@ def body_gtf(ch, ctx):
         kw["id_spec"] = spec
     if sname == "force_gff":
         kw["force_gff"] = True
+    if sname == "default+custom_keys":
+        kw.update(gtf_gene_key="gname", gtf_transcript_key="tname")
     db = gffutils.create_db(path, ":memory:", verbose=False, **kw)
     got = [f.id for f in db.all_features() if f.source != "gffutils_derived"]
     got_derived = sorted(f.id for f in db.all_features() if f.source == "gffutils_derived")
